@@ -25,4 +25,4 @@ def jobs(tier):
     ]
 
 
-META = {'functions': [], 'undecided_part': '', 'trusted_base': ['spec/sysv.h (psABI 3.1.2, 3.2.3)']}
+META = {'functions': ['get_result_type', 'update_field_layout', 'update_members_offset'], 'undecided_part': '', 'trusted_base': ['spec/sysv.h (psABI 3.1.2, 3.2.3)']}
